@@ -136,10 +136,10 @@ class EditDistance(SequenceEdit):
             for node in larger:
                 sizes.push(node)
             for _ in range(len(larger) - len(smaller)):
-                constant_cost += sizes.pop().total_size + self.penalty
+                constant_cost += max(sizes.pop().total_size + self.penalty, 1)
         cost_upper_bound = (
-            sum(node.total_size + self.penalty for node in from_seq) +
-            sum(node.total_size + self.penalty for node in to_seq)
+            sum(max(node.total_size + self.penalty, 1) for node in from_seq) +
+            sum(max(node.total_size + self.penalty, 1) for node in to_seq)
         )
         self.edit_matrix: List[List[Optional[Edit]]] = [
             [None] * (len(self.from_seq) + 1) for _ in range(len(self.to_seq) + 1)
